@@ -121,6 +121,27 @@ func (wd *World) queue(i int) *qh {
 	return q
 }
 
+// settledAfterBarrier: a worker-level barrier that returned nil saw nothing in flight, and a
+// job leaves the in-flight count only after it was closed (status Closed, waiters released).
+// Right after the barrier returned, the handle of every job whose function had returned by
+// then must therefore read Closed; the ones that do not are noted on the call (Extra).
+func (wd *World) settledAfterBarrier(c *Call) {
+	if c.Err != "" || wd != wd.root {
+		return
+	}
+	for _, s := range wd.subs {
+		// (only jobs accepted before the call: the barrier takes its decision somewhere between
+		// its invocation and its return, and promises nothing about what was submitted after)
+		if s.h == nil || s.h.ej == nil || len(s.Exits) == 0 || s.Exits[len(s.Exits)-1] > c.Ret || s.AddRet == 0 || s.AddRet >= c.Inv {
+			continue
+		}
+		s.acquire()
+		if !s.h.ej.IsClosed() {
+			c.Extra = append(c.Extra, s.N)
+		}
+	}
+}
+
 func (wd *World) runOp(op Op) {
 	r := wd.rec
 	w := wd.w
@@ -335,6 +356,7 @@ func (wd *World) runOp(op Op) {
 		c := r.begin(opPauseAndWait, -1, -1)
 		c.Err = errText(w.PauseAndWait())
 		r.end(c)
+		wd.settledAfterBarrier(c)
 	case opResume:
 		c := r.begin(opResume, -1, -1)
 		c.Err = errText(w.Resume())
@@ -343,10 +365,12 @@ func (wd *World) runOp(op Op) {
 		c := r.begin(opStop, -1, -1)
 		c.Err = errText(w.Stop())
 		r.end(c)
+		wd.settledAfterBarrier(c)
 	case opWaitAndStop:
 		c := r.begin(opWaitAndStop, -1, -1)
 		c.Err = errText(w.WaitAndStop())
 		r.end(c)
+		wd.settledAfterBarrier(c)
 	case opRestart:
 		c := r.begin(opRestart, -1, -1)
 		c.Err = errText(w.Restart())
@@ -368,6 +392,7 @@ func (wd *World) runOp(op Op) {
 		c := r.begin(opWUF, -1, -1)
 		w.WaitUntilFinished()
 		r.end(c)
+		wd.settledAfterBarrier(c)
 	case opBind:
 		c := r.begin(opBind, len(wd.qs), -1)
 		c.Arg = op.A
